@@ -115,6 +115,13 @@ def check_generic(ctx, gq):
             walker = g
     if walker is None:
         raise AnalysisError('generic check has no credential walker')
+    if any(isinstance(n, (ast.Yield, ast.YieldFrom))
+           for n in walk_no_nested(walker.node)):
+        raise AnalysisError(
+            'the credential walker %s is a recursive generator: the values '
+            'it yields are matched by its consumer, a split the rules on '
+            'the walk (base case, step, list fold) do not read'
+            % walker.qual)
 
     from ..dte import inline_helpers
     t = Table(prog, f, inline=inline_helpers(
